@@ -1,0 +1,46 @@
+//! Busy-loop detector for loops that would otherwise never return to the harness: the loop calls
+//! `tick`, the scripted transport calls `progress` whenever it is polled for input or output.
+//! More than `BOUND` consecutive ticks on one thread without progress is a spin: panic, which
+//! the harness catches as the verdict.
+
+use std::cell::Cell;
+
+pub const BOUND: u64 = 10_000;
+
+thread_local! {
+    static TICKS: Cell<u64> = const { Cell::new(0) };
+    static ARMED: Cell<bool> = const { Cell::new(false) };
+}
+
+/// Arm (or disarm) the detector on the current thread
+pub fn arm(on: bool) {
+    ARMED.with(|a| a.set(on));
+    TICKS.with(|t| t.set(0));
+}
+
+/// The transport was polled: the loop is making (or waiting for) I/O progress
+pub fn progress() {
+    TICKS.with(|t| t.set(0));
+}
+
+pub fn ticks() -> u64 {
+    TICKS.with(|t| t.get())
+}
+
+pub(crate) fn tick(site: &'static str) {
+    if !ARMED.with(|a| a.get()) {
+        return;
+    }
+    let n = TICKS.with(|t| {
+        let n = t.get() + 1;
+        t.set(n);
+        n
+    });
+    if n > BOUND {
+        TICKS.with(|t| t.set(0));
+        panic!(
+            "verif: busy loop in {}: {} iterations without the transport being polled",
+            site, BOUND
+        );
+    }
+}
